@@ -13,6 +13,16 @@ the verif crash-point hook (watermark tmp written / renamed / rotated).  EVERY c
 and LoadAllEntries compared with the model's admissible readings; Crash entries make the replay
 continue on the copy; the last log is cut at every byte past the last synced record and
 corrupted byte by byte (sweep).
+Reference counts (which logs may the cleanup remove?): Wal.tla carries walHeightRefs as the code
+maintains it (one reference per (live height, log) pair; the cleanup reads only these counts) with
+RefsExact / CleanupKeepsLive / CleanupRemovesDead, checked exhaustively with a cleanup at every prune
+record (Wal_refs*.cfg) and against design mutants of the counting rule.  WalMBT's "driver" profile
+(current height, early messages of the next one, commit = prune + flush, restarts in the middle of a
+height) generates behaviours in which heights are spread over several logs; alternative counting
+rules are followed as ghosts and the behaviours whose cleanups they would decide differently are
+replayed first.  The replay compares, besides the readings of every image, the logs the real
+cleanup unlinks with the specification's RemoveFile steps and the log files of the directory with
+the specification's after every call, crash and reopen.
 """
 import json
 import os
@@ -64,6 +74,53 @@ def decorate(behaviours, seed, sweep_every, thorough):
     return out
 
 
+def refcount_behaviours(ctx, thorough):
+    """The reference-count dimension (which logs may the prune cleanup remove?): behaviours of the
+    generator's "driver" profile (WalMBT.DriverIdle: the current height, early messages of the next one,
+    commit = prune + flush, restarts in the middle of a height) for CleanupInterval 1 and 2.  WalMBT follows
+    alternative bookkeeping rules as ghosts and marks every cleanup whose set of obsolete logs differs under
+    one of them; a pool is generated and the behaviours that contain such a cleanup are replayed first
+    (`early`: an alternative would remove a log the code must keep; `leak`: it would keep one the code removes),
+    then behaviours with a height spread over several logs, then others."""
+    pool = []
+    nruns, depth = (3, 12000) if thorough else (1, 9000)
+    for cfg, interval in (("Wal_sim_c1.cfg", 1), ("Wal_sim_c2.cfg", 2)):
+        for i in range(nruns):
+            for b in ctx.tlc_simulate("consensus", "WalMBT.tla", cfg, depth=depth,
+                                      seed=ctx.seed * 1000 + 100 * interval + i, timeout=900):
+                rot = [s for s in b if s["a"]["name"] == "Rotate"]
+                pool.append({"steps": b, "interval": interval,
+                             "early": sorted({r for s in rot for r in s.get("early", [])}),
+                             "leak": sorted({r for s in rot for r in s.get("leak", [])}),
+                             "spans": any(s.get("spans", 0) > 0 for s in rot)})
+    cap_early, cap_leak, cap_span, cap_rest = (160, 60, 40, 20) if thorough else (48, 16, 10, 6)
+    early = [b for b in pool if b["early"]]
+    leak = [b for b in pool if not b["early"] and b["leak"]]
+    span = [b for b in pool if not b["early"] and not b["leak"] and b["spans"]]
+    rest = [b for b in pool if not b["early"] and not b["leak"] and not b["spans"]]
+    chosen = early[:cap_early] + leak[:cap_leak] + span[:cap_span] + rest[:cap_rest]
+    rules = {}
+    for b in chosen:
+        for r in b["early"]:
+            rules["early:" + r] = rules.get("early:" + r, 0) + 1
+        for r in b["leak"]:
+            rules["leak:" + r] = rules.get("leak:" + r, 0) + 1
+    ctx.coverage["refcount_pool"] = len(pool)
+    ctx.coverage["refcount_replayed"] = len(chosen)
+    ctx.coverage["refcount_sensitive_behaviours"] = rules
+    vlib.log("refcount dimension: pool %d, replayed %d (early-sensitive %d, leak-sensitive %d, multi-log %d, other %d) %s" % (
+        len(pool), len(chosen), min(len(early), cap_early), min(len(leak), cap_leak), min(len(span), cap_span),
+        min(len(rest), cap_rest), rules))
+    for need in ("early:height", "leak:entry"):
+        if rules.get(need, 0) < (3 if need.startswith("early") else 1):
+            raise vlib.Broken("vacuity: the generated pool has too few behaviours whose cleanup is sensitive to the "
+                              "alternative reference-count rule %s (%d)" % (need, rules.get(need, 0)))
+    rnd = random.Random(ctx.seed * 7 + 1)
+    return [{"steps": b["steps"],
+             "opts": {"rseed": rnd.randrange(1 << 40), "ballast": 0, "fat": False, "sweep": 0, "flips": 1,
+                      "subsets": True, "interval": b["interval"]}} for b in chosen]
+
+
 def run_parallel(ctx, binary, payload, procs):
     """Reopening images is dominated by the fsync of the tail repair: run several engine processes."""
     from concurrent.futures import ThreadPoolExecutor
@@ -97,9 +154,23 @@ def run(ctx):
     thorough = not ctx.quick()
     if not os.environ.get("VERIF_SKIP_TLC"):   # development aid only (mutation runs); never set by registered commands
         r = ctx.tlc_check("consensus", "MCWal.tla", "Wal_quick.cfg", timeout=900, coverage=thorough)
+        # the reference-count dimension: heights spread over several logs by restarts and rotations, a cleanup at
+        # every prune record (RefsExact, CleanupKeepsLive, CleanupRemovesDead), and the design mutant of it
+        ctx.tlc_check("consensus", "MCWal.tla", "Wal_refs.cfg", timeout=900)
+        m = ctx.tlc_check("consensus", "MCWal.tla", "Wal_refs_x_height.cfg", timeout=900, expect_violation=True,
+                          label="design mutant: one log reference per height instead of one per (height, log)")
+        if m["ok"] or m["violated"] not in ("CrashSafe", "CleanupKeepsLive"):
+            raise vlib.Broken("vacuity: the design mutant (references counted once per height) does not violate "
+                              "CrashSafe / CleanupKeepsLive (%s)" % m["violated"])
         if thorough:
             vlib.require_actions_covered(r)
             ctx.tlc_check("consensus", "MCWal.tla", "Wal_thorough.cfg", timeout=3000)
+            ctx.tlc_check("consensus", "MCWal.tla", "Wal_refs_thorough.cfg", timeout=3000)
+            m = ctx.tlc_check("consensus", "MCWal.tla", "Wal_refs_x_entry.cfg", timeout=900, expect_violation=True,
+                              label="design mutant: one log reference per entry (never released completely)")
+            if m["ok"] or m["violated"] != "CleanupRemovesDead":
+                raise vlib.Broken("vacuity: the design mutant (references counted per entry) does not violate "
+                                  "CleanupRemovesDead (%s)" % m["violated"])
             # the properties bite: without "watermark before unlink" TLC must find a lost/revived entry
             m = ctx.tlc_check("consensus", "MCWal.tla", "Wal_mutant.cfg", timeout=900, expect_violation=True,
                               label="design mutant: watermark written after the unlinks")
@@ -112,8 +183,9 @@ def run(ctx):
     for i in range(nruns):
         behaviours += ctx.tlc_simulate("consensus", "WalMBT.tla", "Wal_sim.cfg", depth=depth,
                                        seed=ctx.seed * 1000 + i, timeout=900)
+    refb = refcount_behaviours(ctx, thorough)
     payload = {"interval": MODEL_INTERVAL, "concurrent": 6 if thorough else 2,
-               "behaviours": decorate(behaviours, ctx.seed, 5 if thorough else 10, thorough)}
+               "behaviours": decorate(behaviours, ctx.seed, 5 if thorough else 10, thorough) + refb}
     res = run_parallel(ctx, binary, payload, int(os.environ.get("VERIF_ENGINE_PROCS", "6")))
     st = res.get("stats", {})
     # C14 does not quantify over schedules: what only a concurrent writer in the middle of a reader's call can cause
@@ -123,7 +195,9 @@ def run(ctx):
     ctx.coverage["observations"] = st.get("observations", 0)
     if not ctx.violations:   # vacuity guards never mask an observed violation
         for need in ("cleanups", "failed_flushes", "crashes", "sweeps", "images_reopened", "concurrent_rounds",
-                     "concurrent_reads", "retained_entries_rechecked", "recovery_probes", "fat_batches"):
+                     "concurrent_reads", "retained_entries_rechecked", "recovery_probes", "fat_batches",
+                     "file_sets_compared", "cleanups_refcount_sensitive", "cleanups_sensitive_to:height",
+                     "cleanups_leak_sensitive", "cleanups_with_multi_log_heights"):
             if not st.get(need):
                 raise vlib.Broken("vacuity: the replay exercised no %s" % need)
 
@@ -148,7 +222,10 @@ def run(ctx):
         "a crash never alters bytes at or before the last synced record (corruption sweeps only touch the tail)",
         "pebble's record reader / LogWriter are the real ones; write and fsync faults are injected below them "
         "through vfs.Default (the WriteRecord-returns-error branch of appendSync is unreachable this way)",
-        "cleanupPruneRecordInterval = 256 is reached with 254 filler prune records of heights between two model heights",
+        "cleanupPruneRecordInterval = 256 is reached with 256 - CleanupInterval filler prune records of heights between "
+        "two model heights (CleanupInterval 2, and 1 or 2 in the reference-count behaviours)",
+        "log files are compared with the specification's only in behaviours without engine ballast (entries of a height "
+        "the specification does not know keep their log referenced)",
     ]
     return ctx.finish(
         "model_checking",
@@ -157,4 +234,8 @@ def run(ctx):
         "simulation behaviours (26 client steps, heights 1..5, faults, crashes) replayed on the real WAL store with "
         "every directory image taken during every Flush reopened, all subsets of non-durable unlinks, and byte-level "
         "cut/corruption sweeps of the in-flight batch; non-trivial = the replay must contain cleanups, failed flushes, "
-        "crashes and sweeps (checked), and the thorough tier shows a design mutant violating the properties")
+        "crashes and sweeps (checked), and the thorough tier shows a design mutant violating the properties; "
+        "reference counts: exhaustive TLC with a cleanup at every prune record (heights over several logs by restarts "
+        "and rotations) + a design mutant of the counting rule that must violate CrashSafe, and driver-profile "
+        "behaviours selected for cleanups that alternative counting rules would decide differently (checked: some "
+        "are replayed), with the unlinked logs and the directory's log files compared with the specification's")
